@@ -514,7 +514,7 @@ package nsqd
 //@   ensures[https-server-enforces-tls] n.httpsListener != nil ==> r5FServerFor == n && r5FServerTLSEnabled && r5FServerTLSRequired
 //@   ensures[plain-server-gate-follows-the-option] n.httpsListener == nil && n.httpListener != nil ==> r5FServerFor == n && !r5FServerTLSEnabled && r5FServerTLSRequired == (curOpts(n).TLSRequired == TLSRequired)
 //@   ensures[returns-after-one-exit-signal] recvd(final(exitCh)) == 1 && sent(final(exitCh)) == 0
-//@   modifies r5FRoutes, r5FServersBuilt, chanstore(error)
+//@   modifies r5FRoutes, r5FServersBuilt, chanstore(error), r5HDecorations
 
 //@ func (n *NSQD) Main$1$1()
 //@   props C05
